@@ -59,6 +59,9 @@ type mapCall struct {
 	Chunk   int `json:"chunk"`
 	Threads int `json:"threads"`
 	FailAt  int `json:"fail_at"` // the chunk containing this index returns an error (-1: none)
+	// NilEvery > 0: chunks whose start is a multiple of NilEvery return a nil value (and no error);
+	// they still count as one result each
+	NilEvery int `json:"nil_every,omitempty"`
 }
 
 type childJob struct {
@@ -246,22 +249,42 @@ func runProc(c procCase) {
 
 type span struct{ i, j int }
 
-type mapper struct{ i, j, failAt int }
+type mapper struct {
+	i, j, failAt int
+	nilEvery     int
+	seen         *spanLog // every chunk that was operated on, whatever it returned
+}
+
+type spanLog struct {
+	mu    sync.Mutex
+	spans []span
+}
 
 func (m mapper) Operation() (interface{}, error) {
 	if m.failAt >= m.i && m.failAt < m.j {
 		time.Sleep(time.Millisecond)
 		return nil, fmt.Errorf("chunk [%d,%d) failed", m.i, m.j)
 	}
+	if m.seen != nil {
+		m.seen.mu.Lock()
+		m.seen.spans = append(m.seen.spans, span{m.i, m.j})
+		m.seen.mu.Unlock()
+	}
+	if m.nilEvery > 0 && m.i%m.nilEvery == 0 {
+		return nil, nil
+	}
 	return span{m.i, m.j}, nil
 }
-func (m mapper) Slice(i, j int) concurrent.Mapper { return mapper{m.i + i, m.i + j, m.failAt} }
-func (m mapper) Len() int                         { return m.j - m.i }
+func (m mapper) Slice(i, j int) concurrent.Mapper {
+	return mapper{m.i + i, m.i + j, m.failAt, m.nilEvery, m.seen}
+}
+func (m mapper) Len() int { return m.j - m.i }
 
 func runMap(c mapCall) {
 	var res []interface{}
 	var err error
-	if !within(20*time.Second, func() { res, err = concurrent.Map(mapper{0, c.Len, c.FailAt}, c.Threads, c.Chunk) }) {
+	seen := &spanLog{}
+	if !within(20*time.Second, func() { res, err = concurrent.Map(mapper{0, c.Len, c.FailAt, c.NilEvery, seen}, c.Threads, c.Chunk) }) {
 		childFail("map-hangs", "Map(len %d, threads %d, chunk %d) did not return within 20 s", c.Len, c.Threads, c.Chunk)
 	}
 	if c.FailAt >= 0 && c.FailAt < c.Len {
@@ -276,12 +299,34 @@ func runMap(c mapCall) {
 		childFail("map-error", "Map(len %d, threads %d, chunk %d): %v", c.Len, c.Threads, c.Chunk, err)
 	}
 	var spans []span
+	nils := 0
 	for _, r := range res {
+		if r == nil && c.NilEvery > 0 {
+			nils++
+			continue
+		}
 		s, ok := r.(span)
 		if !ok {
 			childFail("map-result", "Map returned a %T", r)
 		}
 		spans = append(spans, s)
+	}
+	if c.NilEvery > 0 {
+		// one result per chunk, nil-valued ones included: as many results as chunks were operated on,
+		// and the chunks themselves (recorded by the operations) are what has to partition the input
+		seen.mu.Lock()
+		ops := append([]span(nil), seen.spans...)
+		seen.mu.Unlock()
+		wantNil := 0
+		for _, sp := range ops {
+			if sp.i%c.NilEvery == 0 {
+				wantNil++
+			}
+		}
+		if len(res) != len(ops) || nils != wantNil {
+			childFail("map-result-count", "Map(len %d, threads %d, chunk %d): %d chunks were operated on (%d of them return a nil value), Map returned %d results (%d nil)", c.Len, c.Threads, c.Chunk, len(ops), wantNil, len(res), nils)
+		}
+		spans = ops
 	}
 	sort.Slice(spans, func(a, b int) bool { return spans[a].i < spans[b].i })
 	pos := 0
@@ -420,7 +465,7 @@ func TestMap(t *testing.T) {
 			var b mapBatch
 			n := rapid.IntRange(1, 20).Draw(t, "ncalls")
 			for i := 0; i < n; i++ {
-				b.Calls = append(b.Calls, mapCall{Len: rapid.OneOf(rapid.IntRange(0, 200), rapid.IntRange(0, 10)).Draw(t, "len"), Chunk: rapid.IntRange(1, 50).Draw(t, "chunk"), Threads: rapid.IntRange(1, 16).Draw(t, "threads"), FailAt: rapid.SampledFrom([]int{-1, -1, -1, 0, 3, 40}).Draw(t, "fail-at")})
+				b.Calls = append(b.Calls, mapCall{Len: rapid.OneOf(rapid.IntRange(0, 200), rapid.IntRange(0, 10)).Draw(t, "len"), Chunk: rapid.IntRange(1, 50).Draw(t, "chunk"), Threads: rapid.IntRange(1, 16).Draw(t, "threads"), FailAt: rapid.SampledFrom([]int{-1, -1, -1, 0, 3, 40}).Draw(t, "fail-at"), NilEvery: rapid.SampledFrom([]int{0, 0, 1, 2, 3}).Draw(t, "nil-every")})
 			}
 			return b
 		},
